@@ -146,6 +146,14 @@ func c14Gen() *rapid.Generator[string] {
 		rapid.StringOfN(rapid.RuneFrom(c14NotSpace), 1, 2, -1),
 		rapid.SampledFrom([]string{"<", ">", "|", "&", ";", "$", "\xff", "\xc3", "\xe2\x82", "\xf0\x9f\x98", "é", "日本", "😀", "á"}),
 		rapid.StringN(0, 6, -1),
+		// a multi-byte character cut in two by control characters: once those are removed the
+		// halves join up again - into a white-space, a control or an ordinary character
+		rapid.Custom(func(t *rapid.T) string {
+			enc := string(rapid.SampledFrom([]rune{0xa0, 0x85, 0x2003, 0x3000, 0x1680, 0x2028, 0x2029, 0x202f, 0x9f, 'é', '日', 0x200b, 0xfeff}).Draw(t, "split-rune"))
+			cut := rapid.IntRange(1, len(enc)-1).Draw(t, "cut")
+			mid := rapid.StringOfN(rapid.RuneFrom([]rune{0x01, 0x1b, 0x7f, 0x00, 0x08, 0x9f, 0x85}), 1, 2, -1).Draw(t, "wedge")
+			return enc[:cut] + mid + enc[cut:]
+		}),
 	)
 	return rapid.Custom(func(t *rapid.T) string {
 		switch rapid.IntRange(0, 9).Draw(t, "shape") {
